@@ -267,6 +267,7 @@ def streamCmd (arg : String) : String :=
      | "chunksinc" => streamOut (Str.chunksMapT k (fun x => 1 + x)) src n
      | "flattenchunks" => streamOut Str.flattenChunks2T src n
      | "uniq" => streamOut (Str.uniqT k) src n
+     | "group" => streamOut (Str.groupT k) src n
      | "filtermod" => streamOut (Str.filterT (fun x => x % (k : Int) == 0) k) src n
      | _ => "BADMACHINE")
   | _ => "BADARG"
